@@ -93,7 +93,7 @@ def run(tier):
     C.add_tlc(r, "MC_Registry universe=%s" % universe)
     edges = r.tags["EDGE"]
     C.cov["rule"] = ("every transition TLC explores in the registry state machine (3 names, %d-descriptor universe, batches of <= 2, 2 suffix sets), "
-                     "each replayed from 2 histories; non-trivial = distinct (pre, action) where pre is non-empty or the action is refused" % (11 if universe == "small" else 15))
+                     "each replayed from 2 histories; non-trivial = distinct (pre, action) where pre is non-empty or the action is refused" % (13 if universe == "small" else 16))
     rnd = random.Random(vp.seed() + 5)
     limit = 25000 if tier == "quick" else 200000
     if len(edges) > limit:
